@@ -273,7 +273,10 @@ func TestVerifCacheStress(t *testing.T) {
 					if record {
 						rec.add(cEvent{G: cGoid(), Ev: "RetReturn", Ver: v})
 					}
-				default: // a peer asks for the template (memcache_rpc.go: IRPC.Get)
+				default: // a peer asks for the template (memcache_rpc.go: IRPC.Get) - sometimes for one nobody ever announced
+					if rng.Intn(3) == 0 {
+						id = 5000
+					}
 					var tr TemplateRecord
 					v := 0
 					if err := NewRPC(cache).Get(RPCRequest{ID: uint16(id), IP: e}, &tr); err == nil {
